@@ -218,7 +218,7 @@ def run(chk: Check):
         use_folder = (rng.random() < 0.5 or i % 6 == 2) and cfg["sched"] == "rr"
         if use_folder:
             changed.append("folder")
-            if len(cfg["lineup"]) >= 3 and len({nm for nm, *_ in cfg["lineup"][1:]}) >= 2 and (rng.random() < 0.7 or i % 6 == 2):
+            if len(cfg["lineup"]) >= 3 and len({nm for nm, *_ in cfg["lineup"][1:]}) >= 2 and (rng.random() < 0.7 or i % 6 == 2) and not cfg.get("may_raise"):
                 # ... and the folder is not empty: it holds the checkpoint of an earlier calibration with the same sampler classes in another order (and another seed)
                 other["leftover"] = dict(cfg, lineup=[cfg["lineup"][0]] + list(reversed(cfg["lineup"][1:])), seed=cfg["seed"] + 1, batches=1)
                 other["leftover"].pop("leftover", None); other["leftover"].pop("model", None)      # (the earlier calibration used a well-behaved model)
